@@ -129,11 +129,18 @@ pub fn build(dna: &[u16]) -> UCase {
         attrs.push("Hash(unsafe)".into());
         bad.push("Hash".into());
     }
+    // Clone alone: Copy is then written by hand; in a generic union the parameter sits inside ManuallyDrop<T> without a
+    // declared bound, so that only the `FieldTy: Copy` predicates of the educed Clone make `*self` legal
+    let clone_only = has_clone && d.chance(35);
+    let md = clone_only && generic && !idx.iter().any(|i| UFIELDS[*i].ty == "[u32; 0]");
     if has_clone {
         attrs.push("Clone".into());
-        attrs.push("Copy".into());
+        if !clone_only {
+            attrs.push("Copy".into());
+        }
     }
     let default_pos = d.pick(idx.len());
+    let has_default = has_default && !(md && UFIELDS[idx[default_pos]].ty == "u32");
     let default_expr = has_default && UFIELDS[idx[default_pos]].expr.is_some() && !(generic && UFIELDS[idx[default_pos]].ty == "u32") && d.chance(50);
     if has_default {
         attrs.push(if d.chance(30) { "Default(new)".into() } else { "Default".into() });
@@ -141,7 +148,7 @@ pub fn build(dna: &[u16]) -> UCase {
     if d.chance(50) {
         attrs.rotate_left(1);
     }
-    let gen_decl = if generic { "<T: Copy>" } else { "" };
+    let gen_decl = if md { "<T>" } else if generic { "<T: Copy>" } else { "" };
     let gen_inst = if generic { "<u32>" } else { "" };
     let mut def = String::from("#[derive(Educe)]\n");
     let render_attrs = |list: &[String], split: bool| -> String {
@@ -168,7 +175,9 @@ pub fn build(dna: &[u16]) -> UCase {
                 fields_src.push_str("    #[educe(Default)]\n");
             }
         }
-        let ty = if generic && f.ty == "u32" {
+        let ty = if md && f.ty == "u32" {
+            "::core::mem::ManuallyDrop<T>"
+        } else if generic && f.ty == "u32" {
             "T"
         } else if generic && f.ty == "[u32; 0]" {
             "[T; 0]"
@@ -181,7 +190,23 @@ pub fn build(dna: &[u16]) -> UCase {
     let uses_t = generic && idx.iter().any(|i| UFIELDS[*i].ty == "u32" || UFIELDS[*i].ty == "[u32; 0]");
     let (gen_decl, gen_inst) = if generic && !uses_t { ("", "") } else { (gen_decl, gen_inst) };
     let body_def = format!("pub union {tname}{gen_decl} {{\n{fields_src}}}\n");
+    let mut user_impls = String::new();
+    if clone_only {
+        // the user's own Copy impl
+        user_impls.push_str(&if generic && uses_t {
+            if md && idx.iter().any(|i| UFIELDS[*i].ty == "u32") {
+                format!("impl<T> ::core::marker::Copy for {tname}<T> where ::core::mem::ManuallyDrop<T>: ::core::marker::Copy {{}}\n")
+            } else if md {
+                format!("impl<T> ::core::marker::Copy for {tname}<T> where [T; 0]: ::core::marker::Copy {{}}\n")
+            } else {
+                format!("impl<T: ::core::marker::Copy> ::core::marker::Copy for {tname}<T> {{}}\n")
+            }
+        } else {
+            format!("impl ::core::marker::Copy for {tname} {{}}\n")
+        });
+    }
     def.push_str(&body_def);
+    def.push_str(&user_impls);
     let ty = format!("{tname}{gen_inst}");
 
     // ---- observer
@@ -269,6 +294,12 @@ pub fn build(dna: &[u16]) -> UCase {
     }
     if size == 0 {
         classes.push("zero_sized".into());
+    }
+    if clone_only {
+        classes.push("clone_without_educed_copy".into());
+    }
+    if md {
+        classes.push("manually_drop_parameter".into());
     }
     UCase { def, body, without_unsafe, nontrivial: (sizes_differ && first_size < size) || size == 0, classes }
 }
